@@ -326,7 +326,7 @@ func runC01(c *ctx) {
 	}
 	c01Internal(c)
 	rxDiff(c, []string{"Channel.promptPattern", "Util.ansiPattern"}, c.n(300, 3000))
-	n := c.n(1200, 40000)
+	n := c.n(1200, 12000)
 	cases := make([]c01case, n)
 	for i := range cases {
 		cases[i] = genC01(c.rng.U64(), c.thorough())
